@@ -282,6 +282,9 @@ func (g *FnGen) mergeEnv(callEnv map[string]Val) map[string]Val {
 	for k, v := range g.env {
 		out[k] = v
 	}
+	for k, v := range g.localsNow() {
+		out[k] = v // a local shadows a parameter of the same name: it is the current value
+	}
 	for k, v := range g.ghostLocals {
 		out[k] = v
 	}
@@ -319,6 +322,34 @@ func (g *FnGen) pureResult(name string, i int, rt types.Type, recv *Val, args []
 // havocAssign havocs one place of a callee's assigns clause.
 func (g *FnGen) havocAssign(a string, env map[string]Val, sig *types.Signature, ct *Contract, ci ssa.CallInstruction) {
 	a = strings.TrimSpace(a)
+	if strings.HasPrefix(a, "fields(") && strings.HasSuffix(a, ")") {
+		// ownership frame: the callee may write the fields of this one object (and of objects the
+		// caller cannot observe); every struct-field key the call could write is havoced at that
+		// index only, everything else it could write is havoced wholesale.
+		e, err := ParseExpr(a[7 : len(a)-1])
+		if err != nil {
+			efail("bad assigns %q", a)
+		}
+		ctx := &EvalCtx{g: g, env: env, st: g.st, oldSt: g.st, oldEnv: env}
+		obj := g.eval(e, ctx)
+		saved := g.S.Contracts[ct.Func]
+		delete(g.S.Contracts, ct.Func)
+		mods := g.E.callMods(ci, true)
+		g.S.Contracts[ct.Func] = saved
+		for _, k := range sortedKeys(mods) {
+			if strings.HasPrefix(k, "F:") {
+				if srt, ok := g.D.heapSorts[k]; ok {
+					es := strings.TrimSuffix(strings.TrimPrefix(srt, "(Array Ref "), ")")
+					nv := g.freshConst("hv_own", es)
+					g.st[k] = g.def("h", srt, store(g.D.get(g.st, k), obj.T, nv))
+				}
+				continue
+			}
+			g.checkCalleeKey(ci, k)
+			g.havocKey(k)
+		}
+		return
+	}
 	if i := strings.LastIndex(a, "."); i > 0 && !strings.Contains(a, "(") && !strings.HasPrefix(a, "key:") {
 		if e, err := ParseExpr(a[:i]); err == nil {
 			if hasKey(env, rootIdent(e)) {
@@ -649,7 +680,11 @@ func (g *FnGen) assumeGlobals(guard string) {
 	}
 	for i, ax := range g.S.Axioms {
 		ctx := &EvalCtx{g: g, env: map[string]Val{}, st: g.st, oldSt: g.st}
-		g.assume("true", g.evalBool(ax.E, ctx), fmt.Sprintf("axiom:%d", i))
+		g.assumeClause("true", ax.E, ctx, fmt.Sprintf("axiom:%d", i))
+	}
+	for _, f := range g.S.Facts {
+		c := EvalCtx{g: g, env: map[string]Val{}, st: State{}, oldSt: State{}}
+		g.root().qfacts = append(g.root().qfacts, QFact{e: f.E, ctx: c, guard: "true"})
 	}
 }
 
